@@ -200,6 +200,17 @@ fn worker_generic<K: HKey>(root: &Path, script: &Script, results: &Path) -> i32 
                     }
                 }
                 Step::GetRange { k, .. } => Ok((None, Some(obs_of(cas.as_ref().expect("harness: no handle").get(&key(*k)))))),
+                Step::Bulk { n } => {
+                    let cas = cas.as_ref().expect("harness: no handle");
+                    let content = pool_content(1);
+                    for i in 0..*n as u64 {
+                        let Some(k) = K::from_key_bytes(&(100_000 + i).to_le_bytes()) else { break };
+                        let mut tx = cas.put(k)?;
+                        tx.write(&content).map_err(tx_err)?;
+                        tx.finish()?;
+                    }
+                    Ok((None, None))
+                }
                 _ => Ok((None, None)),
             }
         }));
